@@ -5,19 +5,25 @@ mod gen_conv;
 mod msgs;
 mod nums;
 mod obs;
+mod scan;
 
 use obs::Obs;
 use std::io::{BufRead, BufWriter, Write};
 
 /// Mutable state a request can refer to (scanner tables etc.).
 #[derive(Default)]
-pub struct State {}
+pub struct State {
+    pub tables: scan::Tables,
+}
 
 /// Evaluate one request on the real crate.
 pub fn eval_request(st: &mut State, req: &str) -> Option<Obs> {
     let w: Vec<&str> = req.split_whitespace().collect();
-    let _ = st;
     match w.as_slice() {
+        ["cc", rest @ ..] => scan::eval_cc(&mut st.tables, rest),
+        ["pn", rest @ ..] => scan::eval_pn(&mut st.tables, rest),
+        ["enc14", which, c, n, v] => Some(scan::enc14_obs(which, c.parse().ok()?, n.parse().ok()?, v.parse().ok()?)),
+        ["encpn", which, i, c, n, v, order] => Some(scan::encpn_obs(which, i.parse().ok()?, c.parse().ok()?, n.parse().ok()?, v.parse().ok()?, *order == "lsb")),
         ["msg", which, s, d1, d2] => {
             Some(msgs::msg_obs(which, s.parse().ok()?, d1.parse().ok()?, d2.parse().ok()?))
         }
@@ -77,6 +83,25 @@ impl<'a> Out<'a> {
         }
         self.evaluations += 1;
     }
+    /// like `req`, returns the printed cells
+    pub fn req_ret(&mut self, req: &str) -> String {
+        match eval_request(&mut self.st, req) {
+            Some(o) => {
+                let c = show_cells(req, &o);
+                writeln!(self.w, "{} | {}", req, c).unwrap();
+                self.evaluations += 1;
+                c
+            }
+            None => {
+                eprintln!("harness: cannot evaluate request `{}`", req);
+                std::process::exit(3);
+            }
+        }
+    }
+    /// a verdict computed here on the real code (must be 1); `detail` must not contain " | "
+    pub fn oracle(&mut self, name: &str, detail: &str, ok: bool) {
+        writeln!(self.w, "oracle {} {} | {}", name, detail, ok as i64).unwrap();
+    }
     pub fn stat(&mut self, k: &str, v: u64) {
         writeln!(self.w, "#STAT {}={}", k, v).unwrap();
     }
@@ -107,8 +132,9 @@ fn main() {
         }
         // evaluate the requests given as arguments
         "eval-args" => {
+            // stateless requests only (each is evaluated twice)
             for r in &args[2..] {
-                if eval_request(&mut out.st, r).is_some() {
+                if !(r.starts_with("cc ") || r.starts_with("pn ") || r.starts_with("pp ")) && eval_request(&mut out.st, r).is_some() {
                     out.req(r);
                 }
             }
@@ -218,6 +244,46 @@ fn main() {
             for i in 0..gen_conv::controller_constants().len() { out.req(&format!("cnconst {}", i)); n += 1; }
             out.stat("evaluations", n); out.stat("nontrivial", n);
         }
+        // encoders
+        "enc14-lines" => {
+            let impls: &[&str] = if tier == "thorough" { &["raw", "str", "frn"] } else { &["raw", "str"] };
+            let mut n = 0u64;
+            let mut rng = nums::Rng(seed ^ 0xE14);
+            for which in impls {
+                for c in 0..16u32 { for cnn in 0..128u32 {
+                    let vals: Vec<u32> = if cnn < 32 {
+                        let step = if tier == "thorough" { 1 } else { 61 };
+                        (0..16384u32).step_by(step).chain([127, 128, 8191, 8192, 16383]).collect()
+                    } else { vec![0, 16383] };
+                    for v in vals { out.req(&format!("enc14 {} {} {} {}", which, c, cnn, v)); n += 1; }
+                    if cnn < 32 { for _ in 0..8 { out.req(&format!("enc14 {} {} {} {}", which, c, cnn, rng.below(16384))); n += 1; } }
+                } }
+            }
+            out.stat("evaluations", n); out.stat("nontrivial", n);
+        }
+        "encpn-lines" => {
+            let impls: &[&str] = if tier == "thorough" { &["raw", "str", "frn"] } else { &["raw", "str"] };
+            let mut n = 0u64;
+            let mut rng = nums::Rng(seed ^ 0xE9);
+            for which in impls { for i in 0..8u32 { for order in ["msb", "lsb"] {
+                let vmax: u32 = if i == 1 || i == 5 { 16384 } else { 128 };
+                for c in 0..16u32 { out.req(&format!("encpn {} {} {} {} {} {}", which, i, c, 421, vmax - 1, order)); n += 1; }
+                for num in 0..16384u32 { out.req(&format!("encpn {} {} {} {} {} {}", which, i, 5, num, (num * 7 + 3) % vmax, order)); n += 1; }
+                for v in 0..vmax { out.req(&format!("encpn {} {} {} {} {} {}", which, i, 15, (v * 131 + 16383) % 16384, v, order)); n += 1; }
+                let samples = if tier == "thorough" { 200_000 } else { 4_000 };
+                for _ in 0..samples {
+                    out.req(&format!("encpn {} {} {} {} {} {}", which, i, rng.below(16), rng.below(16384), rng.below(vmax as u64), order)); n += 1;
+                }
+            } } }
+            out.stat("evaluations", n); out.stat("nontrivial", n);
+        }
+        // scanners: product exploration to a fixpoint and seeded random histories
+        "cc-explore" => { let chans: Vec<u32> = args[2..].iter().filter_map(|s| s.parse().ok()).collect(); scan::explore(&mut out, "cc", &chans, 2_000_000); }
+        "pn-explore" => { let chans: Vec<u32> = args[2..].iter().filter_map(|s| s.parse().ok()).collect(); scan::explore(&mut out, "pn", &chans, 2_000_000); }
+        "cc-random" => { let (h, l) = if tier == "thorough" { (40_000, 80) } else { (5_000, 60) }; scan::random_histories(&mut out, "cc", seed, h, l); }
+        "pn-random" => { let (h, l) = if tier == "thorough" { (40_000, 80) } else { (5_000, 60) }; scan::random_histories(&mut out, "pn", seed, h, l); }
+        "cc-roundtrip" => scan::roundtrips(&mut out, "cc", seed, if tier == "thorough" { 2_000_000 } else { 100_000 }),
+        "pn-roundtrip" => scan::roundtrips(&mut out, "pn", seed, if tier == "thorough" { 2_000_000 } else { 100_000 }),
         // factory constructors: named (block digests), generic, test_util shorthands
         "ctor-blocks" => {
             let impls: &[&str] = if tier == "thorough" { &msgs::IMPLS } else { &["raw", "str"] };
